@@ -167,20 +167,25 @@ impl SyncBlocker {
         })
     }
 
+    // `unparked` and `release` form a store/load handshake between the waiter that gives
+    // up (`set_release` then `is_unparked`) and the waker (`unpark` then `take_release`):
+    // at least one side must see the other's store, which needs SeqCst on all four
+    // accesses. with Release/Acquire both loads can miss (store buffering, also on x86)
+    // and the permit / lock handed to the waiter is lost
     #[inline]
     pub fn is_unparked(&self) -> bool {
-        self.unparked.load(Ordering::Acquire)
+        self.unparked.load(Ordering::SeqCst)
     }
     // set the Flag for the release action
     #[inline]
     pub fn set_release(&self) {
-        self.release.store(true, Ordering::Release);
+        self.release.store(true, Ordering::SeqCst);
     }
 
     // take the release Flag
     #[inline]
     pub fn take_release(&self) -> bool {
-        self.release.swap(false, Ordering::Acquire)
+        self.release.swap(false, Ordering::SeqCst)
     }
 
     #[inline]
@@ -191,6 +196,6 @@ impl SyncBlocker {
     #[inline]
     pub fn unpark(&self) {
         self.blocker.unpark();
-        self.unparked.store(true, Ordering::Release);
+        self.unparked.store(true, Ordering::SeqCst);
     }
 }
